@@ -193,17 +193,16 @@ def scanIndex (s : Store) (mats : List Bytes) (since until_ : Option Int)
   some (scanMatches s ⟨sB, uB, stop, events⟩ addTime mats true)
 
 /-- range path of `Index.scanner` (no mats): used by the created_at index, prefix `pfx` -/
-def scanRange (s : Store) (pfx : Bytes) (since until_ : Option Int) : Option (List Bytes) := do
-  let sB ← match since with | some x => (be32 x).map some | none => some none
-  let uB ← match until_ with | some x => (be32 x).map some | none => some none
-  let start := match uB with | some u => pfx ++ u ++ [0] | none => pfx ++ [255]
+def scanRange (s : Store) (pfx : Bytes) (since until_ : Option Int) : Option (List Bytes) :=
+  (encOpt since).bind fun sB =>
+  (encOpt until_).bind fun uB =>
+  -- (since the `fix:` commit the seek key without `until` lies above every four-byte timestamp; it was `pfx ++ [255]`)
+  let start := match uB with | some u => pfx ++ u ++ [0] | none => pfx ++ [255, 255, 255, 255, 1]
   let stop := match sB with | some sn => pfx ++ sn ++ [255] | none => pfx
-  let ks := skeys s
-  match ks.filter (fun k => !(decide (k < start))) with
-  | [] => pure []
+  match (skeys s).filter (fun k => !(decide (k < start))) with
+  | [] => some []
   | k0 :: _ =>
-    let visited := k0 :: below s k0
-    pure ((visited.takeWhile (fun k => decide (stop < k))).filterMap fun k =>
+    some (((k0 :: below s k0).takeWhile (fun k => decide (stop < k))).filterMap fun k =>
       if k.take 1 == pfx then some (lastN 32 k) else none)
 
 /-! ### writer thread -/
